@@ -704,6 +704,27 @@ theorem C07X_after_return_nothing_queued (h : Reach n maxConc cfg s) (ho : s.out
   have hI := Inv.of_reach h
   ⟨(hI.out_evt ho).1, (hI.out_evt ho).2, hI.out_sub ho⟩
 
+/-- **C01 at executor level.** Once the main thread has left `execute()` - with a result (the map/parallel completion
+record is written only after that), a suspension or a fatal error - no pool worker takes a branch task any more: whatever
+was still queued, including re-submissions by the timer thread, has been cancelled, and `Reach` being closed under
+steps this holds at every later point as well (`out` is never reset, `C01X_out_stable`). -/
+theorem C01X_no_branch_start_after_return (h : Reach n maxConc cfg s) (ho : s.out.isSome = true) (i : Nat) :
+    step s (.begin i) = none := by
+  have hq := (C07X_after_return_nothing_queued h ho).2.1
+  simp [step, begin_, hq]
+
+/-- ... and it stays that way: the outcome is never rewritten (`wake` and `snapshot` are disabled once it is set) and
+nothing is queued again - the resubmitter returns without submitting once the completion event is set. -/
+theorem C01X_no_requeue_after_return (h : Reach n maxConc cfg s) (ho : s.out.isSome = true) {a : Act}
+    (hs : step s a = some s') : s'.out = s.out ∧ s'.queue = [] := by
+  have hout : s'.out = s.out := by
+    rcases out_step (Inv.of_reach h).toBook hs with e | rfl | rfl
+    · exact e
+    · simp [step, wake, ho] at hs
+    · simp [step, snapshot, ho] at hs
+  have ho' : s'.out.isSome = true := by rw [hout]; exact ho
+  exact ⟨hout, (C07X_after_return_nothing_queued (Reach.step a h hs) ho').2.1⟩
+
 /-! ## 7. the main thread never waits forever -/
 
 /-- **C07, never stuck (general form).** While the completion event is not set, the main thread is
@@ -1135,6 +1156,26 @@ example :
        .taskEnd 0 .ok, .finish 0 .ok, .wake, .snapshot]).map (fun s => (s.out, s.maxActive, s.succ, s.ended))
       = some (some (.result [.completed, .completed]), 1, 2, []) ∧
     (runActs (init 2 1 ⟨none, none, none⟩) [.submit 0, .begin 0, .finish 0 .ok]).isNone = true := by
+  decide
+
+set_option synthInstance.maxSize 4096 in
+/-- (x) `C01X_no_branch_start_after_return` is not vacuous (the run behind seeded change C01-6): n = 3, one worker,
+`min_successful = 1`.  Branches 0 and 1 park on timers, branch 2 runs; both timers fire and both re-submissions are
+queued behind it; branch 2 succeeds and decides the batch.  The worker takes the re-submitted branch 0 (allowed: the main
+thread has not returned yet), the main thread wakes up and builds the result - branch 1's queued re-submission is
+cancelled with the pool - and from then on `begin 1` is disabled. -/
+example :
+    (runActs (init 3 1 ⟨some 1, none, none⟩)
+      [.submit 0, .begin 0, .taskEnd 0 (.suspUntil 1), .finish 0 (.suspUntil 1),
+       .submit 1, .begin 1, .taskEnd 1 (.suspUntil 1), .finish 1 (.suspUntil 1), .submit 2, .begin 2, .tick 1,
+       .timerFire 0, .resubmit 0 true, .timerFire 1, .resubmit 1 true,
+       .taskEnd 2 .ok, .finish 2 .ok, .begin 0, .wake, .snapshot]).map (fun s => (s.out, s.queue, s.active))
+      = some (some (.result [.running, .suspended, .completed]), [], [0]) ∧
+    (runActs (init 3 1 ⟨some 1, none, none⟩)
+      [.submit 0, .begin 0, .taskEnd 0 (.suspUntil 1), .finish 0 (.suspUntil 1),
+       .submit 1, .begin 1, .taskEnd 1 (.suspUntil 1), .finish 1 (.suspUntil 1), .submit 2, .begin 2, .tick 1,
+       .timerFire 0, .resubmit 0 true, .timerFire 1, .resubmit 1 true,
+       .taskEnd 2 .ok, .finish 2 .ok, .begin 0, .wake, .snapshot, .taskEnd 0 .orphan, .begin 1]).isNone = true := by
   decide
 
 end C09X
